@@ -36,6 +36,9 @@ pub struct WorkerReport {
     pub samples: Vec<serde_json::Value>,
     pub wall_s: f64,
     pub hang: Option<u64>,
+    /// runs during which a worker process died (signal), with a description
+    #[serde(default)]
+    pub aborted: Vec<(u64, String)>,
 }
 
 #[derive(Clone, Debug)]
@@ -113,10 +116,17 @@ pub fn worker(plan: &Plan, k: u64) -> WorkerReport {
         let mut nfps: BTreeSet<u64> = BTreeSet::new();
         let mut digs: BTreeSet<u64> = BTreeSet::new();
         let mut classes: BTreeSet<String> = BTreeSet::new();
+        // progress file: lets the parent name the run if this process dies without a report
+        // (stack overflow / abort inside library code cannot be caught in-process)
+        let progress = std::fs::File::create(ctx.scratch.join("progress")).ok();
         let mut run = k;
         while run < plan.runs {
             CURRENT_SINCE_MS.store(t0.elapsed().as_millis() as u64, Ordering::Relaxed);
             CURRENT_RUN.store(run, Ordering::Relaxed);
+            if let Some(f) = &progress {
+                use std::os::unix::fs::FileExt;
+                let _ = f.write_all_at(&run.to_le_bytes(), 0);
+            }
             let s = generate(&plan.prop, plan.seed, run, plan.thorough);
             let out = match crate::obs::guarded(|| execute(&mut ctx, &s)) {
                 Ok(o) => o,
@@ -206,10 +216,22 @@ pub fn spawn_workers(plan: &Plan) -> Merged {
     let mut digs: BTreeSet<u64> = BTreeSet::new();
     let mut classes: BTreeSet<String> = BTreeSet::new();
     for (k, ch) in children.into_iter().enumerate() {
+        let pid = ch.id();
         let o = ch.wait_with_output().expect("wait worker");
         let text = String::from_utf8_lossy(&o.stdout);
         let Some(line) = text.lines().rev().find(|l| l.starts_with('{')) else {
-            errs.push(format!("worker {k}: no report (exit {:?})", o.status.code()));
+            // the worker died (signal): the progress file names the run it was executing
+            let base = std::env::var("HPOSIM_SCRATCH").unwrap_or_else(|_| "/verif/target/scratch".to_string());
+            let dir = std::path::PathBuf::from(base).join(format!("p{pid}"));
+            let died_at = std::fs::read(dir.join("progress")).ok().filter(|b| b.len() >= 8).map(|b| u64::from_le_bytes([b[0], b[1], b[2], b[3], b[4], b[5], b[6], b[7]]));
+            let _ = std::fs::remove_dir_all(&dir);
+            match died_at {
+                Some(run) => {
+                    use std::os::unix::process::ExitStatusExt;
+                    m.aborted.push((run, format!("worker process died with signal {:?} (stack overflow or abort inside a library call)", o.status.signal())));
+                }
+                None => errs.push(format!("worker {k}: no report (exit {:?})", o.status.code())),
+            }
             continue;
         };
         let r: WorkerReport = match serde_json::from_str(line) {
@@ -279,7 +301,7 @@ pub fn make_replay(prop: &str, seed: u64, found: &Found, thorough: bool) -> Opti
     let mut ctx = Ctx::new(false);
     let size0 = s0.facts.size() + s0.replicas.len() + s0.ops.len() + s0.edits.len();
     let (s, execs) = {
-        let mut m = Minimiser { ctx: &mut ctx, class: found.class.clone(), budget: 2000, execs: 0 };
+        let mut m = Minimiser { ctx: &mut ctx, class: found.class.clone(), budget: 2000, execs: 0, deadline: std::time::Instant::now() + std::time::Duration::from_secs(90) };
         let s = m.run(s0.clone());
         (s, m.execs)
     };
